@@ -147,9 +147,9 @@ func solveAll(obls []*Obligation, tier string, par int, dumpDir string) map[*Obl
 	}
 	var raceMu sync.Mutex // serialises multi-core acquisition (no deadlock between racers)
 	var wg sync.WaitGroup
-	quickT, slowT := 2, 20
+	quickT, slowT := 3, 75
 	if tier == "thorough" {
-		quickT, slowT = 5, 120
+		quickT, slowT = 5, 300
 	}
 	for _, o := range obls {
 		wg.Add(1)
